@@ -429,6 +429,8 @@ Qed.
 
 Lemma model_ok_round x : ok_round x (enc_uout (unpad (pad_mem x []))) = true.
 Proof. rewrite pad_mem_eq, unpad_pad. unfold ok_round. cbn [enc_uout]. apply list_eqb_refl. Qed.
+Lemma model_ok_round_mem x tail : ok_round x (enc_uout (unpad (pad_mem x tail))) = true.
+Proof. rewrite pad_mem_eq, unpad_pad. unfold ok_round. cbn [enc_uout]. apply list_eqb_refl. Qed.
 
 Lemma model_ok_unpad d : ok_unpad d (enc_uout (unpad d)) = true.
 Proof.
@@ -493,6 +495,7 @@ Proof.
   - now rewrite model_ok_pad.
   - now rewrite model_ok_unpad.
   - now rewrite model_ok_round.
+  - now rewrite model_ok_round_mem.
   - now rewrite model_ok_prefix.
   - now rewrite model_ok_trim.
   - now rewrite model_ok_read.
